@@ -393,6 +393,16 @@ def node_notifications(ctx):
         v0 = old.get('otherNodes').bits
         for i in range(so.U):
             ctx.prove(Implies(v0[i], And(Iff(m1.pres[i], m0.pres[i]), Implies(m0.pres[i], Eq(m1.vals[i], m0.vals[i])))), 'C18+C04:O18.3.voter-matchIndex-untouched')
+        if k == 0:
+            # I4 for a leader: a joining observer gets nextIndex = last+1 and matchIndex = 0, and is marked connected
+            n1, cn = so.cell('raftNextIndex'), so.cell('connectedNodes').bits
+            for i in range(so.U):
+                ctx.prove(Implies(idx == i, And(n1.pres[i], m1.pres[i], Eq(n1.vals[i], so.log().last_idx() + 1), Eq(m1.vals[i], 0),
+                                               so.cell('readonlyNodes').bits[i], cn[i])), 'C18+C04:O18.3.joining-observer-initialised')
+        if k == 1:
+            n1 = so.cell('raftNextIndex')
+            for i in range(so.U):
+                ctx.prove(Implies(idx == i, And(Not(n1.pres[i]), Not(m1.pres[i]), Not(so.cell('readonlyNodes').bits[i]))), 'C18:O18.3.leaving-observer-forgotten')
         if not observer:
             for n, b in field_unchanged(old, so, ['readonlyNodes', 'raftMatchIndex', 'raftNextIndex']):
                 ctx.prove(b, 'C18:O18.3.member-notification-touches-only-connected.%s' % n)
